@@ -167,8 +167,19 @@ def run(ctx):
                 ulf[2][0][2] == i
             ok_c = method_call(cm) is not None and method_call(cm)[1] == 'get_submodule' and \
                 mentions(cm, lambda y: y == ('const', '.sn_combiner'))
-            same_parent = ok_u and ok_c and ulf[2][0][1][0] == 'sub' and \
-                mentions(cm, lambda y: y == ulf[2][0][1][2])
+            # the per-branch lists are those collected under the name the combiner is looked up
+            # with:  D[name][i] with name in the combiner path, or  for name, lists in D.items()
+            key = None
+            if ok_u and ulf[2][0][1][0] == 'sub':
+                holder = ulf[2][0][1]
+                if holder[2] == ('const', 1) and holder[1][0] == 'elem' and \
+                        method_call(holder[1][1]) is not None and \
+                        method_call(holder[1][1])[1] == 'items':
+                    key = ('sub', holder[1], ('const', 0))
+                else:
+                    key = holder[2]
+            same_parent = ok_u and ok_c and key is not None and \
+                mentions(cm, lambda y: y == key)
             ctx.ob('R06b', 'link_combiners_to_branches fills every branch list',
                    ok_i and ok_u and ok_c and same_parent,
                    'set_sn_branch(i, uniquify(modules of branch i)) for i in range(n_branches) on '
